@@ -267,6 +267,7 @@ type Obligation struct {
 	script   *Script
 	extra    []string // extra assertions local to this obligation
 	Desc     string
+	OwnerProps []string // for call-site preconditions: the properties the callee's contract serves
 }
 
 type Result struct {
@@ -319,7 +320,11 @@ func (o *Obligation) Query(getModel bool) string {
 				if included[i] {
 					continue
 				}
-				if m := specSymRe.FindString(a); m == "" || strings.Contains(text, m) {
+				m := specSymRe.FindString(a)
+				if m == "" && strings.Contains(a, ":named |axiom$") {
+					m = globalSymRe.FindString(a) // foreign axiom about a package-level variable
+				}
+				if m == "" || strings.Contains(text, m) {
 					included[i] = true
 					text += a
 					changed = true
@@ -472,6 +477,8 @@ func Solve(o *Obligation, timeoutS int, confirm bool) *Result {
 	}
 	return r
 }
+
+var globalSymRe = regexp.MustCompile(`\|G\$[^|]*\|`)
 
 var specSymRe = regexp.MustCompile(`\|spec\$[^|]*\|`)
 
